@@ -60,7 +60,7 @@ def fmtWalk (src : Bytes) (mask : String) : String :=
 
 /-- "khex:vhex,…", "-" (nil options) or "=" (empty map) -/
 def parseParams (f : String) : Option (List (Bytes × Bytes)) :=
-  if f == "-" || f == "=" then some []
+  if f == "-" || f == "=" || f == "0" then some []
   else (f.splitOn ",").mapM fun kv =>
     match kv.splitOn ":" with
     | [k, v] => do
